@@ -41,6 +41,13 @@ CHECKS = {
              '(leaf hash later used for signing) and control-block sizes 0..4225 through configure_tx_txin.',
         note='trusted: ref/taproot.py, ref/secp.py (anchored on doc/txs/p2ts and BIP340 vector 0)',
         ref='5 C05'),
+    'C06': dict(
+        technique='runtime monitoring: shape-agnostic reference-model monitor over the real tap binary (ASan+UBSan build), incl. pty runs and --sig round trips through btcdeb',
+        text='Exploration, exhaustive over (n, spending index) for n = 1..24 (quick) / 1..64 (thorough) plus random n up to 1024: for every leaf the emitted script and control block are folded by an independent BIP341 implementation and must '
+             'commit to the same output key as the bech32m-decoded address of every invocation (with and without a selected leaf) with the stated parity; the reported sighash must equal the reference BIP341/342 digest of the emitted transaction; '
+             'a reference Schnorr signature passed back with --sig must give a transaction accepted by the reference validator and by btcdeb.',
+        note='trusted: ref/taproot.py, ref/sighash.py, ref/secp.py, ref/codec.py; single-input transactions only',
+        ref='5 C06'),
     'C10': dict(
         technique='runtime monitoring: lock-step reference-model monitor over Instance::step() traces of boundary scripts (ASan+UBSan build)',
         text='Exploration over a deterministic boundary matrix: for each consensus limit (520-byte push, 1000 stack+altstack items, 201 counted ops incl. multisig key counts, 20 multisig keys, 10,000-byte scripts, 4/5-byte numeric operands) '
